@@ -1035,3 +1035,6 @@ def run(ctx):
     from .c08 import eq_functions, rule_relation_table
     roots, _helpers = eq_functions(ctx.prog)
     rule_relation_table(ctx, roots, "R1.14")
+    # R1.15: what counts as a number / string / array / object is the type checker's decision alone (Decimal, OrderedDict, ...)
+    from .c05 import rule_carriers
+    rule_carriers(ctx, "R1.15")
